@@ -644,20 +644,35 @@ func (cl *c36Client) stream(method, adv string, params arrow.RecordBatch, via st
 	w := cl.send(params, via, cl.attached, mk, mv)
 	defer w.batch.Release()
 	cl.sentPtr = []bool{w.isPtr}
-	cl.writeStream(w)
 	engaged := -1
 	if cl.attached >= 0 && (hasName || w.isPtr) {
 		engaged = cl.attached
 	}
-	// input stream: the client writes before it reads
-	iw := ipc.NewWriter(cl.c2s, ipc.WithSchema(inSchema))
+	// LOCKSTEP: the allocation table in the segment header is shared memory without any
+	// inter-process lock; client and server may only touch it in turns. The slot of the first input
+	// (which the client sends before it reads anything) is therefore allocated BEFORE a single byte
+	// of the request is on the pipe — once the server has the request it resolves and frees the
+	// request slot, and a client allocating at that moment loses that update (the freed entry comes
+	// back: observed as a sporadic one-entry "leak" under load).
 	cur := c36Wire{k: -1}
 	sent := 0
+	var prepared *c36Wire
+	if len(turns) > 0 {
+		fw := cl.send(turns[0].input, turns[0].via, engaged, nil, nil)
+		prepared = &fw
+	}
+	cl.writeStream(w)
+	// input stream: the client writes before it reads
+	iw := ipc.NewWriter(cl.c2s, ipc.WithSchema(inSchema))
 	sendNext := func() bool {
 		if sent >= len(turns) {
 			return false
 		}
-		cur = cl.send(turns[sent].input, turns[sent].via, engaged, nil, nil)
+		if prepared != nil {
+			cur, prepared = *prepared, nil
+		} else {
+			cur = cl.send(turns[sent].input, turns[sent].via, engaged, nil, nil)
+		}
 		cl.sentPtr = append(cl.sentPtr, cur.isPtr)
 		if err := iw.Write(cur.batch); err != nil && cl.broken == "" {
 			cl.broken = "input write: " + err.Error()
